@@ -45,6 +45,7 @@ DFAs
     run_parity_witness(d, mask) -> word with an odd-length maximal run of bytes from `mask`, or None
     run_min_length(d, mask, skip_first=False) -> (min length of a maximal run, witness) over all words
     split_piece_min_len(d, sep_mask, skip=0, cap=64) -> (min length of a piece of word.split(sep) with index >= skip, witness)
+    slice_dfa(d, front, back) -> (DFA of the payloads w[front:len(w)-back], complete(payload) -> full word or None)
     words_upto(d, k) -> sorted list of all words of length <= k (small alphabets only)
     lang_upto(rx, k, alphabet) -> set of words by the denotational definition (no automata; used to validate the above)
 """
@@ -1208,6 +1209,60 @@ def split_piece_min_len(d, sep_mask, skip=0, cap=64):
         if w is not None:
             return (k, w)
     return (None, None)
+
+
+def slice_dfa(d, front, back):
+    """Minimal DFA of { w[front : len(w)-back] : w in L(d), len(w) >= front+back } (what `&data[front..data.len()-back]` can be).
+    Returns (dfa, complete) where complete(payload) -> a full word of L(d) with that payload, or None."""
+    ok = _trim(d)
+    # states reachable in exactly `front` steps, with one word each
+    layer = {d.start: b""} if ok[d.start] else {}
+    order = sorted(range(len(d.masks)), key=lambda a: d.reps[a])
+    for _ in range(front):
+        nxt = {}
+        for q, w in sorted(layer.items(), key=lambda x: (x[1], x[0])):
+            for a in order:
+                t = d.trans[q][a]
+                if t >= 0 and ok[t] and t not in nxt:
+                    nxt[t] = w + bytes([d.reps[a]])
+        layer = nxt
+    # states from which acceptance is reachable in exactly `back` steps, with one tail each
+    tails = {q: b"" for q in range(d.n) if ok[q] and d.acc[q]}
+    for _ in range(back):
+        prev = {}
+        for q in range(d.n):
+            if not ok[q]:
+                continue
+            for a in order:
+                t = d.trans[q][a]
+                if t in tails and q not in prev:
+                    prev[q] = bytes([d.reps[a]]) + tails[t]
+        tails = prev
+    n = NFA(d.n + 2)
+    s0, s1 = d.n, d.n + 1
+    n.start, n.stop = s0, s1
+    for q in layer:
+        n.eps[s0].add(q)
+    for q in tails:
+        n.eps[q].add(s1)
+    for q in range(d.n):
+        if not ok[q]:
+            continue
+        by_t = {}
+        for a, t in enumerate(d.trans[q]):
+            if t >= 0 and ok[t]:
+                by_t[t] = by_t.get(t, 0) | d.masks[a]
+        for t, m in by_t.items():
+            n.sym[q].append((m, t))
+    out = minimize(determinize(n), keep_tags=False)
+
+    def complete(payload):
+        for q, w in sorted(layer.items(), key=lambda x: (x[1], x[0])):
+            t = d.run(payload, q)
+            if t >= 0 and t in tails:
+                return w + bytes(payload) + tails[t]
+        return None
+    return out, complete
 
 
 # ---- enumeration / denotational reference --------------------------------------------------------
